@@ -35,6 +35,7 @@ structure St where
   killNull : Array Bool := #[]             -- the destructor of the id also calls del(NULL), after its kills
   strict : Bool := false                   -- ledger of the property text in the stopped window (witness files only)
   tainted : Bool := false                  -- a witness of a known finding ran: the model departs from the ledger on purpose
+  stale : Bool := false                    -- `stalemark` left mark bits behind (until the next collection / sweep)
   every : Nat := 1
   since : Nat := 0
   nDump : Nat := 0
@@ -96,7 +97,7 @@ def selfCheck (s : St) : List String := Id.run do
       match r.slots[i] with
       | none => pure ()
       | some e =>
-        if e.val.marked then bad := s!"mark left at {i}" :: bad
+        if e.val.marked && !s.stale then bad := s!"mark left at {i}" :: bad
         match s.uId[(e.key - addr0) / 8]? with
         | some id => if s.rootOf.getD id false != e.val.root then bad := s!"root flag of {id}" :: bad
         | none => bad := s!"unknown entry at {i}" :: bad
@@ -120,8 +121,9 @@ def finish (s : St) (name res : String) (t : List Nat) : IO St := do
     for b in selfCheck s do IO.println s!"R bad {name}: {b}"
   return s
 
-/-- the model does not answer (`none`): the C code does not continue normally (the known case: `dealloc(destruct(NULL))` from
-    GC_Rem_Ptr during a sweep); the harness prints the same line and both stop -/
+/-- the model does not answer (`none`): the C code does not continue normally (the case known before fix d3e4e44:
+    `dealloc(destruct(NULL))` from GC_Rem_Ptr during a sweep; the model follows the source through `gcCfg.remNullGuard`);
+    the harness prints the same line and both stop -/
 def abortLine (name : String) : IO Unit := IO.println s!"O {name} abort"
 
 def idealLine (lo hi : Nat) : String := Id.run do
@@ -214,7 +216,7 @@ def main (args : List String) : IO Unit := do
               s := { s with reg := r1, st := s.st.setIfInBounds id 1, rootOf := s.rootOf.setIfInBounds id false, tainted := true }
             else
               s := { s with reg := r1, st := s.st.setIfInBounds id (if r0.running then 1 else 2),
-                            rootOf := s.rootOf.setIfInBounds id false }
+                            rootOf := s.rootOf.setIfInBounds id false, stale := s.stale && !r0.running }
             s ← finish s op "ok" t
       else if (op == "del" || op == "delroot") && a.size == 1 then
         match s.addrOfId a[0]! with
@@ -257,13 +259,21 @@ def main (args : List String) : IO Unit := do
       else if op == "sweep" || op == "collect" then
         let ps := a.toList.filterMap s.addrOfId
         if ps.length != a.size || (op == "collect" && a.size > 40) then IO.println "O bad-op" else
-        let r0 := if op == "collect" then markRoots s.reg else s.reg
-        match markAll cfg r0 ps with
+        -- `collect` is the real GC_Mark (nothing when nitems is 0; GC_Unmark, the roots, the listed objects); `sweep` is
+        -- GC_Mark_Item on each listed object from the mark bits as they are
+        match (if op == "collect" then gcMark cfg s.reg ps else markAll cfg s.reg ps) with
         | none => abortLine op; halted := true
         | some r1 =>
           match gcSweep cfg s.K r1 with
           | none => abortLine op; halted := true
-          | some (r2, t) => s := { s with reg := r2 }; s ← finish s op "ok" t
+          | some (r2, t) => s := { s with reg := r2, stale := false }; s ← finish s op "ok" t
+      else if op == "stalemark" then
+        -- a mark phase left by an exception: GC_Mark_Item on each listed object, no sweep
+        let ps := a.toList.filterMap s.addrOfId
+        if ps.length != a.size || a.size > 40 then IO.println "O bad-op" else
+        match markAll cfg s.reg ps with
+        | none => abortLine op; halted := true
+        | some r1 => s := { s with reg := r1, stale := true }; s ← finish s op "ok" []
       else if op == "sweepmod" && a.size == 2 && a[0]! > 0 then
         -- mark every managed id with id % m != r
         let ps := (List.range s.st.size).filterMap (fun id =>
@@ -273,7 +283,7 @@ def main (args : List String) : IO Unit := do
         | some r1 =>
           match gcSweep cfg s.K r1 with
           | none => abortLine op; halted := true
-          | some (r2, t) => s := { s with reg := r2 }; s ← finish s op "ok" t
+          | some (r2, t) => s := { s with reg := r2, stale := false }; s ← finish s op "ok" t
       else if op == "stop" && a.size == 0 then
         s := { s with reg := gcStop s.reg }; s ← finish s op "ok" []
       else if op == "start" && a.size == 0 then
